@@ -491,9 +491,9 @@ func (h *history) passTimeout() {
 	// their function name in the goroutine dump). Without this a goroutine that is scheduled late would remove, by name, the
 	// fresh condition of an instance that has meanwhile come back and reported - a window of microseconds that the
 	// property (quantified over histories, not schedules) does not speak about.
-	if !vkit.WaitFor(5*time.Second, noCleanupGoroutine) {
+	if !vkit.WaitFor(30*time.Second, noCleanupGoroutine) {
 		h.dead = true
-		h.r.Inconclusive("a cleanupTimeoutClient goroutine was still present 5 s after the pass")
+		h.r.Inconclusive("a cleanupTimeoutClient goroutine was still present 30 s after the pass")
 		return
 	}
 	ok := vkit.WaitFor(d, func() bool {
@@ -748,7 +748,7 @@ func (h *history) run() {
 func returnDuringCleanup(r *vkit.R) {
 	n := r.N(250, 2500)
 	r.Parallel(n, 1, func(i int, g *vkit.Rand) {
-		if !vkit.WaitFor(5*time.Second, noCleanupGoroutine) {
+		if !vkit.WaitFor(30*time.Second, noCleanupGoroutine) {
 			r.Inconclusive("a cleanupTimeoutClient goroutine of an earlier history never finished")
 			return
 		}
@@ -805,8 +805,8 @@ func returnDuringCleanup(r *vkit.R) {
 		if overlapped {
 			r.Count("return_overlaps_achieved", 1)
 		}
-		if !vkit.WaitFor(5*time.Second, noCleanupGoroutine) {
-			r.Inconclusive("a cleanupTimeoutClient goroutine was still present 5 s after the pass")
+		if !vkit.WaitFor(30*time.Second, noCleanupGoroutine) {
+			r.Inconclusive("a cleanupTimeoutClient goroutine was still present 30 s after the pass")
 			return
 		}
 		r.Eval(1)
